@@ -32,9 +32,9 @@ Ltac dσ σ :=
 Lemma call_setHead σ x z (a b : Z) k :
   g_err σ = false -> v_x (g_vars σ) = Z.of_N x -> v_z (g_vars σ) = Z.of_N z -> x < 32 -> z < 32 ->
   call1 CSetHead [a; b] σ k =
-  k (mkist (st_img (g_st σ) (mkwr (4096 + 4 * idx x z) (be 4 (pat b)) :: mkwr (4 * idx x z) (be 4 (pat a)) :: img (g_st σ)))
-           (g_vars σ) None (g_lim σ) (be 4 (pat b)) (g_data σ) (g_dlen σ)
-           ((g_ws σ ++ [mkwr (4 * idx x z) (be 4 (pat a))]) ++ [mkwr (4096 + 4 * idx x z) (be 4 (pat b))])
+  k (mkist (st_img (g_st σ) (mkwr (4 * idx x z) (be 4 (pat a)) :: mkwr (4096 + 4 * idx x z) (be 4 (pat b)) :: img (g_st σ)))
+           (g_vars σ) None (g_lim σ) (be 4 (pat a)) (g_data σ) (g_dlen σ)
+           ((g_ws σ ++ [mkwr (4096 + 4 * idx x z) (be 4 (pat b))]) ++ [mkwr (4 * idx x z) (be 4 (pat a))])
            false (g_now σ)).
 Proof.
   dσ σ. intros He Hx Hz Hx32 Hz32. subst err vx vz. unfold call1, run, C14gen.setHead. lstep.
@@ -233,11 +233,11 @@ Lemma alloc_eq k o t u h f vsec vnum vlength vsize vi vo vs vv voffset vtimestam
       if sector_limit <=? n' + need then ROutside else
       k (mkist (Build_st (setN o (idx x z) (n' * 256 + need)) (setN t (idx x z) (nw mod 2^32))
                          (mark (mark u n (N.to_nat cur) false) n' (N.to_nat need) true) (N.max h (n' + need))
-                         (mkwr (4096 + 4 * idx x z) (be 4 (nw mod 2^32)) :: mkwr (4 * idx x z) (be 4 (n' * 256 + need)) :: f))
+                         (mkwr (4 * idx x z) (be 4 (n' * 256 + need)) :: mkwr (4096 + 4 * idx x z) (be 4 (nw mod 2^32)) :: f))
                (mkvars (Z.of_N x) (Z.of_N z) (Z.of_N need) (Z.of_N n') (Z.of_N need) vsec vnum vlength vsize (Z.of_N need)
                        vo vs vv voffset (wrap_s 64 (Z.of_N nw)) (Z.of_N n) (Z.of_N cur))
-               None lim (be 4 (nw mod 2^32)) dat dlen
-               ((ws ++ [mkwr (4 * idx x z) (be 4 (n' * 256 + need))]) ++ [mkwr (4096 + 4 * idx x z) (be 4 (nw mod 2^32))])
+               None lim (be 4 (n' * 256 + need)) dat dlen
+               ((ws ++ [mkwr (4096 + 4 * idx x z) (be 4 (nw mod 2^32))]) ++ [mkwr (4 * idx x z) (be 4 (n' * 256 + need))])
                false nw)
   end.
 Proof.
